@@ -257,6 +257,7 @@ type hostileMsg struct {
 	ch   byte
 	bz   []byte
 	kind string
+	size int    // > 0: size on the wire of a message whose bytes are not materialised
 	must string // non-empty: the message is invalid beyond argument, the sender must be dropped
 	big  string // non-empty: the message carries an attacker-chosen large size (description)
 }
@@ -1180,7 +1181,8 @@ func (s *sim) buildHostileX(op simcore.Op, pm *peerM, dry bool) *hostileMsg {
 			must(true, "message for a channel the node does not have")
 		case "oversize":
 			hm.ch = s.chanFor(op.Int("chsel"))
-			hm.bz = bytes.Repeat([]byte{0x0a}, s.chans[hm.ch].desc.RecvMessageCapacity+op.Int("over"))
+			hm.size = s.chans[hm.ch].desc.RecvMessageCapacity + op.Int("over")
+			hm.bz = []byte{0x0a}
 			must(true, "message larger than the channel's receive capacity")
 		case "mut":
 			base := op.Sub("base")
@@ -1514,12 +1516,14 @@ func (s *sim) finalChecks() {
 	e.Settle()
 	s.observePeers("final")
 	m0 := s.memBefore()
-	wait := 2*s.config.Consensus.PeerGossipSleepDuration + 2*s.config.Consensus.PeerQueryMaj23SleepDuration + 150*time.Millisecond
+	leftAt := time.Now()
+	wait := 2*s.config.Consensus.PeerGossipSleepDuration + 150*time.Millisecond
+	muteWait := time.Duration(0)
 	for _, idx := range s.order {
 		if s.peers[idx].sp.mute {
 			// a routine may sit in a send to a peer that never drains its queue for the
 			// connection's send timeout (10s)
-			wait += 10 * time.Second
+			muteWait = 10 * time.Second
 			break
 		}
 	}
@@ -1535,24 +1539,6 @@ func (s *sim) finalChecks() {
 			e.Fail("C17", "receive-wedged", "a %s delivered by peer %d never returned from the reactor (%v of simulated time)", pm.pendKind, idx, time.Since(pm.pendAt))
 		}
 	}
-	// 2. goroutine census: per-peer routines exist only for connected peers
-	live := 0
-	muteLive := 0
-	for _, idx := range s.order {
-		if s.peers[idx].live {
-			live++
-			if s.peers[idx].sp.mute {
-				muteLive++
-			}
-		}
-	}
-	cen, sample := census()
-	for _, k := range []string{"gossipDataRoutine", "gossipVotesRoutine", "queryMaj23Routine", "broadcastTxRoutine", "broadcastEvidenceRoutine"} {
-		if cen[k] > live {
-			e.Fail("C17", "goroutine-stuck-for-removed-peer", "%d %s goroutines are still alive %v after all but %d peers were removed, e.g.\n%s", cen[k], k, wait, live, firstLines(sample[k], 14))
-		}
-	}
-	e.Count("probe.census")
 	// 3. honest traffic is still processed by every reactor
 	if s.honest.live && !s.honest.pending {
 		for i, k := range []string{"status", "tx", "nrs", "snapreq", "chunkreq", "pexreq", "vote", "evid"} {
@@ -1570,10 +1556,8 @@ func (s *sim) finalChecks() {
 		}
 		s.checkFailures("final-handover")
 		if !s.consensusRunning() {
-			st, np, nr := "?", 0, 0
-			_ = np
-			_ = nr
-			e.Fail("C17", "wedged-block-sync", "20s after the hostile peers left and an honest peer reported the node's own height %d, block sync has not handed over to consensus (%s)", s.storeHeight(), st)
+			e.Fail("C17", "wedged-block-sync", "20s after every hostile peer was removed and an honest peer reported the node's own height %d, block sync has not handed over to consensus: the node stays in fast-sync mode for good", s.storeHeight())
+			return // (a listed finding) nothing more to learn from this run
 		}
 		e.Count("probe.handover_after_hostile_sync")
 		h0 = s.storeHeight()
@@ -1594,9 +1578,33 @@ func (s *sim) finalChecks() {
 		// the sync loop must still be alive and responsive: it ends when told to abort
 		e.Count("probe.statesync_run")
 	}
-	// 5. nothing substantial stays buffered on behalf of peers that are gone
+	// 5. goroutine census: per-peer routines exist only for connected peers. queryMaj23Routine
+	// may sleep five times per iteration before it looks at the peer again.
+	if need := 5*s.config.Consensus.PeerQueryMaj23SleepDuration + 2*s.config.Consensus.PeerGossipSleepDuration + 200*time.Millisecond + muteWait; time.Since(leftAt) < need {
+		s.sleep(need - time.Since(leftAt))
+		s.checkFailures("final-census")
+	}
+	wait = time.Since(leftAt)
+	live := 0
+	muteLive := 0
+	for _, idx := range s.order {
+		if s.peers[idx].live {
+			live++
+			if s.peers[idx].sp.mute {
+				muteLive++
+			}
+		}
+	}
+	cen, sample := census()
+	for _, k := range []string{"gossipDataRoutine", "gossipVotesRoutine", "queryMaj23Routine", "broadcastTxRoutine", "broadcastEvidenceRoutine"} {
+		if cen[k] > live {
+			e.Fail("C17", "goroutine-stuck-for-removed-peer", "%d %s goroutines are still alive %v after all but %d peers were removed, e.g.\n%s", cen[k], k, wait, live, firstLines(sample[k], 14))
+		}
+	}
+	e.Count("probe.census")
+	// 6. nothing substantial stays buffered on behalf of peers that are gone
 	s.checkRetained()
-	// 6. stop consensus; the WAL it leaves must be readable (the node can restart)
+	// 7. stop consensus; the WAL it leaves must be readable (the node can restart)
 	if s.consensusRunning() {
 		s.checkWAL()
 	}
